@@ -48,6 +48,9 @@ type Model struct {
 	Cred  map[pair]int                // emps.credits <-> depts.creditors (ref counted)
 	// LastDeleted lists "type\x00id" of every entity removed by the most recent accepted Delete (cascade closure).
 	LastDeleted []string
+	// Upgrade: a create through a child store over an entity that exists without data in that child store is judged:
+	// the parent's fields are overwritten by the payload (validated like an update) and the child data is added.
+	Upgrade bool
 }
 
 func NewModel(cfg Config) *Model {
@@ -64,7 +67,7 @@ func NewModel(cfg Config) *Model {
 }
 
 func (m *Model) Clone() *Model {
-	c := &Model{Cfg: m.Cfg, Defs: m.Defs, Ents: map[string]map[string]*MEnt{}, Watch: map[pair]bool{}, Cred: map[pair]int{}}
+	c := &Model{Cfg: m.Cfg, Defs: m.Defs, Upgrade: m.Upgrade, Ents: map[string]map[string]*MEnt{}, Watch: map[pair]bool{}, Cred: map[pair]int{}}
 	for t, es := range m.Ents {
 		c.Ents[t] = map[string]*MEnt{}
 		for id, e := range es {
@@ -288,7 +291,23 @@ func (m *Model) Create(store, id string, v map[string]any, cv map[string]any) Pr
 			if _, hasChild := existing.Child[store]; hasChild {
 				return rej(ExpReject, "already exists")
 			}
-			return Pred{Skip: true, Why: "create through child over an existing plain parent is not defined"}
+			if !m.Upgrade {
+				return Pred{Skip: true, Why: "create through child over an existing plain parent is not defined"}
+			}
+			full := map[string]any{}
+			for _, f := range rootFields(m.Defs[root]) {
+				full[f.Name] = schema.CloneVal(v[f.Name])
+			}
+			if p := combine(m.validateEmp(id, full, existing, existing)); p.Exp != ExpOK {
+				return p
+			}
+			existing.V = full
+			c := map[string]any{}
+			for _, f := range m.Defs[store].Fields {
+				c[f.Name] = schema.CloneVal(cv[f.Name])
+			}
+			existing.Child[store] = c
+			return ok()
 		}
 		return rej(ExpReject, "already exists")
 	}
